@@ -47,6 +47,8 @@ type VC struct {
 	clock int
 	nilChecked map[string]bool
 	memClock map[string]int
+	defOf    map[string]string
+	distinctFacts map[string]bool
 	fdefs    map[string]fdef
 	ringDone map[string]bool
 	ringNF   map[string]string
@@ -66,6 +68,7 @@ type memLink struct {
 	frame  bool
 	before int
 	roots  []string
+	alts   []string // the updated row is one of these (e.g. append: in place or a fresh array)
 }
 
 func (vc *VC) noteBirth(ref string) {
@@ -95,9 +98,26 @@ func isIntLit(s string) bool {
 }
 
 // distinctRefs: generator-level proof that two reference terms denote different allocations
+func (vc *VC) canon(t string) string {
+	for i := 0; i < 8; i++ {
+		d, ok := vc.defOf[t]
+		if !ok {
+			return t
+		}
+		t = d
+	}
+	return t
+}
+
 func (vc *VC) distinctRefs(x, r string) bool {
 	if x == r {
 		return false
+	}
+	if len(vc.distinctFacts) > 0 {
+		cx, cr := vc.canon(x), vc.canon(r)
+		if vc.distinctFacts[cx+"|"+cr] || vc.distinctFacts[cr+"|"+cx] {
+			return true
+		}
 	}
 	if isIntLit(x) && isIntLit(r) {
 		return true
@@ -147,6 +167,19 @@ func (vc *VC) resolve(m, ref, slot string) (mem string, row string, val string) 
 			m = l.parent
 			continue
 		}
+		if len(l.alts) > 0 {
+			all := true
+			for _, a := range l.alts {
+				if a == ref || !vc.distinctRefs(ref, a) {
+					all = false
+				}
+			}
+			if all {
+				m = l.parent
+				continue
+			}
+			return m, "", ""
+		}
 		if l.ref == ref {
 			if l.row != "" {
 				return "", l.row, ""
@@ -168,6 +201,14 @@ func (vc *VC) resolve(m, ref, slot string) (mem string, row string, val string) 
 	}
 }
 
+func (vc *VC) setRowAlts(st *State, s Sort, ref, row string, alts []string) {
+	vc.setRow(st, s, ref, row)
+	vc.links[st.mem[s]].alts = alts
+	for _, a := range alts {
+		vc.noteBirth(a)
+	}
+}
+
 func (vc *VC) setRow(st *State, s Sort, ref, row string) {
 	m := vc.memOf(st, s)
 	nm := vc.freshRaw("M_"+string(s), memSort(s))
@@ -179,7 +220,7 @@ func (vc *VC) setRow(st *State, s Sort, ref, row string) {
 
 
 func newVC(eng *Engine, fn string) *VC {
-	return &VC{fdefs: map[string]fdef{}, ringDone: map[string]bool{}, ringNF: map[string]string{}, isFresh: map[string]bool{}, memClock: map[string]int{}, nilChecked: map[string]bool{}, links: map[string]*memLink{}, birth: map[string]int{}, isAlloc: map[string]bool{}, eng: eng, declared: map[string]string{}, sorts: map[Sort]bool{}, unmodelled: map[string]bool{},
+	return &VC{defOf: map[string]string{}, distinctFacts: map[string]bool{}, fdefs: map[string]fdef{}, ringDone: map[string]bool{}, ringNF: map[string]string{}, isFresh: map[string]bool{}, memClock: map[string]int{}, nilChecked: map[string]bool{}, links: map[string]*memLink{}, birth: map[string]int{}, isAlloc: map[string]bool{}, eng: eng, declared: map[string]string{}, sorts: map[Sort]bool{}, unmodelled: map[string]bool{},
 		assumptions: map[string]bool{}, axiomsUsed: map[string]bool{}, funcName: fn, counters: map[string]int{}}
 }
 
@@ -275,6 +316,7 @@ func (vc *VC) bind(prefix string, s Sort, term string) string {
 		return term
 	}
 	c := vc.fresh(prefix, s)
+	vc.defOf[c] = term
 	if s == SF {
 		vc.fdefs[c] = fdef{term: term, guard: "true"}
 	}
